@@ -10,6 +10,25 @@ fn vor(inp: &Input) -> String {
     guarded(move || crate::ser::voronoi(&Voronoi::build(&inp.gens, inp.anchor, inp.width, inp.dimensionality(), inp.periodic))).unwrap_or_else(|e| e)
 }
 
+/// face integrals through the integrator (non-symmetric and symmetric): `FN k {left right shift area centroid} FS k {...}`
+fn integrator_faces(inp: &Input) -> String {
+    use meshless_voronoi::integrals::AreaCentroidIntegral;
+    let inp = inp.clone();
+    guarded(move || {
+        let vi = meshless_voronoi::VoronoiIntegrator::build(&inp.gens, None, inp.anchor, inp.width, inp.dimensionality(), inp.periodic);
+        let mut s = String::new();
+        for (tag, fs) in [("FN", vi.compute_face_integrals::<AreaCentroidIntegral>()), ("FS", vi.compute_face_integrals_sym::<AreaCentroidIntegral>())] {
+            s.push_str(&format!("{} {}", tag, fs.len()));
+            for f in &fs {
+                s.push_str(&format!(" {} {} {}", crate::ser::face_header(f), crate::proto::fx(f.integral().area), crate::proto::v3(f.integral().centroid)));
+            }
+            s.push(' ');
+        }
+        s.trim_end().to_string()
+    })
+    .unwrap_or_else(|e| e)
+}
+
 pub fn run(out: &mut Out, rng: &mut Rng, thorough: bool) {
     let reps = if thorough { 12 } else { 2 };
     for _ in 0..reps {
@@ -48,7 +67,7 @@ pub fn run(out: &mut Out, rng: &mut Rng, thorough: bool) {
                         c.anchor.y = -0.5;
                         c.width.y = 1.;
                     }
-                    out.rec("lowdim", &a.family, &format!("{} B {}", a.tokens(), b.tokens()), &format!("A {} B {} C {}", vor(&a), vor(&b), vor(&c)));
+                    out.rec("lowdim", &a.family, &format!("{} B {}", a.tokens(), b.tokens()), &format!("A {} B {} C {} I {}", vor(&a), vor(&b), vor(&c), integrator_faces(&a)));
                 }
             }
         }
